@@ -39,7 +39,7 @@ func a5Walk(dir string) (paths []string, kinds map[string]string) {
 // streamC20: real `restic restore` with include / exclude flags (and --delete into pre-populated
 // targets) on small generated snapshots; the set of paths in the target afterwards is recorded.
 func streamC20(h *H) {
-	ntrees := h.N(40, 800)
+	ntrees := h.N(40, 240)
 	perTree := 5
 	stale := []string{"xold", "a", "b", "c", "y.txt", "Ab", "stale", "X.TXT"}
 	for t := 0; t < ntrees; t++ {
